@@ -2,6 +2,7 @@ mod cfgsweep;
 mod cluster;
 mod codecs;
 mod eqid;
+mod altid;
 mod falsify;
 mod gen;
 mod json;
@@ -235,6 +236,11 @@ fn main() {
                     std::process::exit(2);
                 }
             }
+        }
+        Some("allocprobe") => {
+            // child process of the C20 falsifier: decode a member whose string length prefix is isize::MAX
+            let k: u64 = args.get(2).and_then(|x| x.parse().ok()).unwrap_or(0);
+            println!("{}", codecs::alloc_probe(k));
         }
         Some("cfgsweep") => {
             let shard: u64 = arg(&args, "--shard", "0").parse().unwrap();
